@@ -23,6 +23,7 @@ RULE_TEXT = (
     "C11.a order obligations O3,O5a,O5b,O6,O7; C11.b slot-class agreement producer vs consumer; C11.c nested-prune triage table; "
     "C11.d operand wiring of the JSON rewrites (stage interpreted on symbolic operands, product matched structurally); "
     "C11.e = C10.f closure on the JSON rewrites."
+    " C11.f = C10.h on the JSON rewrites."
 )
 TRUSTED = ["CPython ast", "sqlglot transform pruning semantics (read from expressions.py)", "order obligations table with reasons"]
 
